@@ -222,6 +222,16 @@ let q_repr (k : int) (it : item) (args : string list) : string =
         done;
         "[" ^ Buffer.contents b ^ "]"
     | ["const"] -> if c.fr_const then "const" else "nonconst"
+    | ["scan"; form] ->
+        (* the #[repr] scan of from_repr.rs on the attribute AS WRITTEN: attributes separated by '|', hints by ',' *)
+        let hint h = match String.trim h with
+          | "u8" -> HInt RU8 | "u16" -> HInt RU16 | "u32" -> HInt RU32 | "u64" -> HInt RU64 | "usize" -> HInt RUsize
+          | "i8" -> HInt RI8 | "i16" -> HInt RI16 | "i32" -> HInt RI32 | "i64" -> HInt RI64 | "isize" -> HInt RIsize
+          | _ -> HOtherHint in
+        let attrs = if form = "-" then [] else List.map (fun a -> List.map hint (String.split_on_char ',' a)) (String.split_on_char '|' form) in
+        (match scan_repr attrs with
+          | RU8 -> "u8" | RU16 -> "u16" | RU32 -> "u32" | RU64 -> "u64" | RUsize -> "usize"
+          | RI8 -> "i8" | RI16 -> "i16" | RI32 -> "i32" | RI64 -> "i64" | RIsize -> "isize" | ROther -> "other")
     | ["prog"] ->
         (* the emitted body as the deep-embedded program of Model/ReprProg.v, in the format harness/genprobe `structfr` prints
            for the REAL expansion; `compiles` is the model's constant evaluation in the discriminant type *)
